@@ -1,1 +1,470 @@
-fn main() { eprintln!("stub"); }
+//! swc_tools — drives the real `swc_isograph_plugin` pass natively (C28).
+//!
+//! `swc_tools transform` reads JSON lines from stdin, one job per line, and
+//! prints ONE JSON report `{"results":[...]}` on stdout.
+//!
+//! Job kinds
+//!   transform: parse `source` (ts/tsx/js/jsx), apply the plugin pass built by
+//!              `swc_isograph_plugin::compile_iso_literal_visitor`, print with
+//!              swc_ecma_codegen.  Reports printed text, the diagnostics the
+//!              pass emitted through swc's HANDLER (message + byte span), the
+//!              imports / `require(..).default` expressions the pass created
+//!              (they carry dummy spans), iso calls that survived, panics.
+//!   print:     parse + print only (no pass) — used for the "substituted by
+//!              hand" expected module so both sides go through the same printer.
+//!   probe:     one iso call on its own: `iso(`<literal>`)(__FN__);` (or
+//!              without the second call) run through the pass; the resulting
+//!              AST is decoded into a classification
+//!              (entrypoint / field / identity / kept / other), the specifier
+//!              and the diagnostics.
+//!
+//! Every job is isolated: own SourceMap, own Globals, own Handler, panics
+//! caught with catch_unwind.
+
+use std::{
+    io::{Read, Write},
+    panic::{AssertUnwindSafe, catch_unwind},
+    path::PathBuf,
+    sync::{Arc, Mutex},
+};
+
+use isograph_config::IsographProjectConfig;
+use serde::Deserialize;
+use serde_json::{Value, json};
+use swc_core::{
+    common::{
+        FileName, GLOBALS, Globals, Mark, SourceFile, SourceMap, Span,
+        errors::{DiagnosticBuilder, Emitter, HANDLER, Handler},
+        sync::Lrc,
+    },
+    ecma::{
+        ast::*,
+        codegen::{Config as CgConfig, Emitter as CgEmitter, text_writer::JsWriter},
+        parser::{EsSyntax, Parser, StringInput, Syntax, TsSyntax},
+        visit::{Visit, VisitWith},
+    },
+};
+use swc_isograph_plugin::compile_iso_literal_visitor;
+
+#[derive(Deserialize)]
+struct Job {
+    #[serde(default)]
+    id: Value,
+    kind: String,
+    #[serde(default)]
+    root_dir: String,
+    /// relative to root_dir (or absolute)
+    #[serde(default)]
+    file: String,
+    #[serde(default)]
+    source: String,
+    #[serde(default)]
+    config: Value,
+    /// "ts" | "tsx" | "js" | "jsx"
+    #[serde(default)]
+    syntax: String,
+    /// pass Some(Mark::new()) as unresolved mark (as the wasm entry does)
+    #[serde(default)]
+    mark: bool,
+    /// probe: raw template text
+    #[serde(default)]
+    literal: String,
+    /// probe: `iso(`..`)(__FN__)` instead of `iso(`..`)`
+    #[serde(default)]
+    with_fn: bool,
+}
+
+type Diags = Arc<Mutex<Vec<(String, Option<Span>)>>>;
+
+struct Collect(Diags);
+
+impl Emitter for Collect {
+    fn emit(&mut self, db: &DiagnosticBuilder<'_>) {
+        let span = db.span.primary_span();
+        self.0.lock().unwrap().push((db.message(), span));
+    }
+}
+
+fn syntax_of(s: &str) -> Syntax {
+    match s {
+        "js" => Syntax::Es(EsSyntax::default()),
+        "jsx" => Syntax::Es(EsSyntax {
+            jsx: true,
+            ..Default::default()
+        }),
+        "ts" => Syntax::Typescript(TsSyntax::default()),
+        _ => Syntax::Typescript(TsSyntax {
+            tsx: true,
+            ..Default::default()
+        }),
+    }
+}
+
+fn parse(fm: &Lrc<SourceFile>, syntax: Syntax) -> Result<Module, String> {
+    let mut parser = Parser::new(syntax, StringInput::from(&**fm), None);
+    let module = parser
+        .parse_module()
+        .map_err(|e| format!("{:?}", e.kind().msg()))?;
+    let errs = parser.take_errors();
+    if let Some(e) = errs.first() {
+        return Err(format!("recovered: {:?}", e.kind().msg()));
+    }
+    Ok(module)
+}
+
+fn print(cm: &Lrc<SourceMap>, m: &Module) -> String {
+    let mut buf = vec![];
+    {
+        let wr = JsWriter::new(cm.clone(), "\n", &mut buf, None);
+        let mut em = CgEmitter {
+            cfg: CgConfig::default(),
+            cm: cm.clone(),
+            comments: None,
+            wr,
+        };
+        em.emit_module(m).expect("codegen failed");
+    }
+    String::from_utf8(buf).expect("codegen produced invalid utf-8")
+}
+
+fn is_iso_ident(e: &Expr) -> bool {
+    matches!(e, Expr::Ident(i) if i.sym == "iso")
+}
+
+/// `require("<spec>").default` → Some(spec)
+fn require_default_spec(e: &Expr) -> Option<String> {
+    if let Expr::Member(MemberExpr {
+        obj,
+        prop: MemberProp::Ident(p),
+        ..
+    }) = e
+        && p.sym == "default"
+        && let Expr::Call(CallExpr {
+            callee: Callee::Expr(c),
+            args,
+            ..
+        }) = &**obj
+        && matches!(&**c, Expr::Ident(i) if i.sym == "require")
+        && args.len() == 1
+        && let Expr::Lit(Lit::Str(s)) = &*args[0].expr
+    {
+        return Some(s.value.to_string());
+    }
+    None
+}
+
+/// What the pass left behind / created, collected from the transformed AST.
+#[derive(Default)]
+struct Observe {
+    base: u32,
+    /// `require(..).default` with a dummy span = created by the pass
+    created_requires: Vec<String>,
+    /// iso(...) or iso(...)(...) calls still present: (lo, hi) of the outermost call
+    surviving_iso_calls: Vec<(u32, u32)>,
+}
+
+impl Observe {
+    fn rel(&self, s: Span) -> (u32, u32) {
+        (
+            s.lo.0.saturating_sub(self.base),
+            s.hi.0.saturating_sub(self.base),
+        )
+    }
+}
+
+impl Visit for Observe {
+    fn visit_expr(&mut self, e: &Expr) {
+        if let Expr::Member(m) = e
+            && m.span.is_dummy()
+            && let Some(spec) = require_default_spec(e)
+        {
+            self.created_requires.push(spec);
+        }
+        if let Expr::Call(CallExpr {
+            callee: Callee::Expr(c),
+            span,
+            ..
+        }) = e
+        {
+            let direct = is_iso_ident(c);
+            let nested = matches!(&**c, Expr::Call(CallExpr { callee: Callee::Expr(cc), .. }) if is_iso_ident(cc));
+            if nested {
+                let r = self.rel(*span);
+                self.surviving_iso_calls.push(r);
+                // do not report the inner iso(...) again, but look at the args
+                if let Expr::Call(outer) = e {
+                    outer.args.visit_with(self);
+                    if let Callee::Expr(inner) = &outer.callee
+                        && let Expr::Call(inner) = &**inner
+                    {
+                        inner.args.visit_with(self);
+                    }
+                }
+                return;
+            }
+            if direct {
+                let r = self.rel(*span);
+                self.surviving_iso_calls.push(r);
+            }
+        }
+        e.visit_children_with(self);
+    }
+}
+
+fn created_imports(m: &Module) -> Vec<Value> {
+    let mut out = vec![];
+    for item in &m.body {
+        if let ModuleItem::ModuleDecl(ModuleDecl::Import(i)) = item
+            && i.span.is_dummy()
+        {
+            let local = i.specifiers.first().map(|s| match s {
+                ImportSpecifier::Default(d) => format!("default:{}", d.local.sym),
+                ImportSpecifier::Named(n) => format!("named:{}", n.local.sym),
+                ImportSpecifier::Namespace(n) => format!("ns:{}", n.local.sym),
+            });
+            out.push(json!({
+                "local": local,
+                "n_specifiers": i.specifiers.len(),
+                "src": i.src.value.to_string(),
+                "type_only": i.type_only,
+            }));
+        }
+    }
+    out
+}
+
+fn decode_probe(m: &Module) -> Value {
+    let mut imports: Vec<(String, String)> = vec![];
+    let mut exprs: Vec<&Expr> = vec![];
+    let mut other_items = 0;
+    for item in &m.body {
+        match item {
+            ModuleItem::ModuleDecl(ModuleDecl::Import(i)) => {
+                let local = match i.specifiers.first() {
+                    Some(ImportSpecifier::Default(d)) if i.specifiers.len() == 1 => {
+                        d.local.sym.to_string()
+                    }
+                    _ => "?".to_string(),
+                };
+                imports.push((local, i.src.value.to_string()));
+            }
+            ModuleItem::Stmt(Stmt::Expr(e)) => exprs.push(&e.expr),
+            _ => other_items += 1,
+        }
+    }
+    if exprs.len() != 1 || other_items != 0 {
+        return json!({"class": "other", "why": "unexpected module shape",
+            "n_imports": imports.len(), "n_exprs": exprs.len()});
+    }
+    let e = exprs[0];
+    let n_imports = imports.len();
+    match e {
+        Expr::Ident(i) if i.sym == "__FN__" && n_imports == 0 => json!({"class": "field"}),
+        Expr::Ident(i) => {
+            if n_imports == 1 && imports[0].0 == i.sym.as_str() {
+                json!({"class": "entrypoint", "how": "import", "ident": i.sym.to_string(),
+                    "spec": imports[0].1})
+            } else {
+                json!({"class": "other", "why": "identifier without matching single import",
+                    "ident": i.sym.to_string(), "n_imports": n_imports})
+            }
+        }
+        Expr::Arrow(a) if n_imports == 0 => {
+            let identity = a.params.len() == 1
+                && matches!(&a.params[0], Pat::Ident(p) if p.id.sym == "x")
+                && matches!(&*a.body, BlockStmtOrExpr::Expr(b) if matches!(&**b, Expr::Ident(i) if i.sym == "x"));
+            if identity {
+                json!({"class": "identity"})
+            } else {
+                json!({"class": "other", "why": "arrow that is not x => x"})
+            }
+        }
+        Expr::Call(CallExpr {
+            callee: Callee::Expr(c),
+            ..
+        }) if n_imports == 0 => {
+            let direct = is_iso_ident(c);
+            let nested = matches!(&**c, Expr::Call(CallExpr { callee: Callee::Expr(cc), .. }) if is_iso_ident(cc));
+            if direct || nested {
+                json!({"class": "kept"})
+            } else {
+                json!({"class": "other", "why": "call that is not iso"})
+            }
+        }
+        _ => {
+            if n_imports == 0
+                && let Some(spec) = require_default_spec(e)
+            {
+                json!({"class": "entrypoint", "how": "require", "spec": spec})
+            } else {
+                json!({"class": "other", "why": "unrecognised expression", "n_imports": n_imports})
+            }
+        }
+    }
+}
+
+fn run_job(job: &Job) -> Value {
+    let diags: Diags = Default::default();
+    let handler = Handler::with_emitter(true, false, Box::new(Collect(diags.clone())));
+    let cm: Lrc<SourceMap> = Default::default();
+
+    let abs_file: PathBuf = if job.file.is_empty() {
+        PathBuf::from("unknown.tsx")
+    } else {
+        PathBuf::from(&job.root_dir).join(&job.file)
+    };
+    let source = match job.kind.as_str() {
+        "probe" => {
+            if job.with_fn {
+                format!("iso(`{}`)(__FN__);\n", job.literal)
+            } else {
+                format!("iso(`{}`);\n", job.literal)
+            }
+        }
+        _ => job.source.clone(),
+    };
+    let fm = cm.new_source_file(Lrc::new(FileName::Real(abs_file.clone())), source);
+    let base = fm.start_pos.0;
+    let syntax = syntax_of(&job.syntax);
+
+    let module = match parse(&fm, syntax) {
+        Ok(m) => m,
+        Err(e) => return json!({"id": job.id, "kind": job.kind, "parse_error": e}),
+    };
+
+    if job.kind == "print" {
+        let printed = catch_unwind(AssertUnwindSafe(|| print(&cm, &module)));
+        return match printed {
+            Ok(p) => json!({"id": job.id, "kind": "print", "output": p}),
+            Err(_) => json!({"id": job.id, "kind": "print", "panic": "codegen panicked"}),
+        };
+    }
+
+    let config: IsographProjectConfig = match serde_json::from_value(job.config.clone()) {
+        Ok(c) => c,
+        Err(e) => {
+            return json!({"id": job.id, "kind": job.kind, "config_error": e.to_string()});
+        }
+    };
+    let root_dir = PathBuf::from(&job.root_dir);
+
+    let res = catch_unwind(AssertUnwindSafe(|| {
+        GLOBALS.set(&Globals::new(), || {
+            HANDLER.set(&handler, || {
+                let mark = if job.mark { Some(Mark::new()) } else { None };
+                let pass = compile_iso_literal_visitor(&config, &abs_file, &root_dir, mark);
+                let program = Program::Module(module).apply(pass);
+                match program {
+                    Program::Module(m) => m,
+                    Program::Script(_) => unreachable!("module in, script out"),
+                }
+            })
+        })
+    }));
+
+    let diag_json: Vec<Value> = diags
+        .lock()
+        .unwrap()
+        .iter()
+        .map(|(msg, span)| {
+            let (lo, hi) = match span {
+                Some(s) if !s.is_dummy() => (
+                    Some(s.lo.0.saturating_sub(base)),
+                    Some(s.hi.0.saturating_sub(base)),
+                ),
+                _ => (None, None),
+            };
+            json!({"msg": msg, "lo": lo, "hi": hi})
+        })
+        .collect();
+
+    let transformed = match res {
+        Ok(m) => m,
+        Err(p) => {
+            let msg = if let Some(s) = p.downcast_ref::<&str>() {
+                s.to_string()
+            } else if let Some(s) = p.downcast_ref::<String>() {
+                s.clone()
+            } else {
+                "non-string panic".to_string()
+            };
+            return json!({"id": job.id, "kind": job.kind, "panic": msg, "diagnostics": diag_json});
+        }
+    };
+
+    let printed = match catch_unwind(AssertUnwindSafe(|| print(&cm, &transformed))) {
+        Ok(p) => p,
+        Err(_) => {
+            return json!({"id": job.id, "kind": job.kind, "panic": "codegen panicked",
+                "diagnostics": diag_json});
+        }
+    };
+
+    if job.kind == "probe" {
+        let mut d = decode_probe(&transformed);
+        let o = d.as_object_mut().unwrap();
+        o.insert("id".into(), job.id.clone());
+        o.insert("kind".into(), json!("probe"));
+        o.insert("diagnostics".into(), json!(diag_json));
+        o.insert("output".into(), json!(printed));
+        return d;
+    }
+
+    let mut obs = Observe {
+        base,
+        ..Default::default()
+    };
+    transformed.visit_with(&mut obs);
+    json!({
+        "id": job.id,
+        "kind": "transform",
+        "output": printed,
+        "diagnostics": diag_json,
+        "created_imports": created_imports(&transformed),
+        "created_requires": obs.created_requires,
+        "surviving_iso_calls": obs.surviving_iso_calls,
+    })
+}
+
+fn main() {
+    let args: Vec<String> = std::env::args().collect();
+    if args.get(1).map(|s| s.as_str()) != Some("transform") {
+        eprintln!("usage: swc_tools transform < jobs.jsonl");
+        std::process::exit(2);
+    }
+    // keep stderr quiet: panics are caught per job and reported in the JSON
+    std::panic::set_hook(Box::new(|_| {}));
+
+    let mut input = String::new();
+    std::io::stdin()
+        .read_to_string(&mut input)
+        .expect("read stdin");
+    let mut results = vec![];
+    let mut bad_lines = 0usize;
+    for line in input.lines() {
+        if line.trim().is_empty() {
+            continue;
+        }
+        match serde_json::from_str::<Job>(line) {
+            Ok(job) => {
+                let r = catch_unwind(AssertUnwindSafe(|| run_job(&job)));
+                match r {
+                    Ok(v) => results.push(v),
+                    Err(_) => results.push(
+                        json!({"id": job.id, "kind": job.kind, "panic": "harness-level panic"}),
+                    ),
+                }
+            }
+            Err(e) => {
+                bad_lines += 1;
+                results.push(json!({"bad_job": e.to_string()}));
+            }
+        }
+    }
+    let out = json!({"tool": "swc_tools", "jobs": results.len(), "bad_lines": bad_lines,
+        "results": results});
+    let stdout = std::io::stdout();
+    let mut lock = stdout.lock();
+    serde_json::to_writer(&mut lock, &out).expect("write stdout");
+    lock.write_all(b"\n").unwrap();
+}
